@@ -8,11 +8,12 @@
 //!                                                `generate_hash_key` relies on (kind = path | os | str)
 //!   args     ( argv files )                   -> parse result of the real `parse_arguments`
 //!   key      ( argv files depinfo env shlibs version filenames )
-//!                                             -> ( ok PREIMAGE-PREFIX tail_ok key_ok outputs pairs ) | ( err ) | parse result
+//!                                             -> ( ok PREIMAGE-PREFIX tail_ok key_ok outputs pairs compile_args ) | ( err ) | parse result
 //!            the real `Rust::parse_arguments` + `RustHasher::generate_hash_key` with a mocked rustc; the
 //!            pre-image is what the real code fed to its `Digest` (hook util::VERIF_DIGEST_TRACE)
 //!   keypair  ( reqA reqB meta )               -> ( same_key resA resB )   two `key` requests in one working directory
 //!   cwdpair  ( req subA subB meta )           -> ( same_key okA okB )   one request in two directories under one parent
+//!   sysroot  ( ((name kind digest content) ...) ) -> ( ok (digest ...) )   the real Rust::new on a scratch sysroot/lib
 //!   digest   ( content is_archive )           -> ( digest )              helper for the case generator
 use sccache::util::{Digest, VERIF_DIGEST_TRACE};
 use sccache::verif_hooks::cache::{Cache, CacheMode, CacheWrite, Storage};
@@ -410,6 +411,14 @@ fn key_in2(case: &Sx, _scratch: &Scratch, cwd: PathBuf) -> (Sx, Option<String>) 
         res.compilation.outputs().map(|o| (o.key, o.path, o.optional)).collect();
     outs.sort();
     let key = res.key.clone();
+    // the command a cache miss would run (its diagnostics are what gets stored under the key)
+    let compile_args = {
+        let mut pt = sccache::dist::PathTransformer::new();
+        match res.compilation.generate_compile_commands(&mut pt, false) {
+            Ok((cmd, _, _)) => Sx::L(cmd.get_arguments().iter().map(sb).collect()),
+            Err(_) => Sx::L(vec![Sx::sym("no_compile_command")]),
+        }
+    };
     // the (flag, value) pairs the request was parsed into (used to classify key collisions)
     let pairs = match verif_parse_arguments(&argv, &cwd) {
         CompilerArguments::Ok(p) => {
@@ -429,9 +438,96 @@ fn key_in2(case: &Sx, _scratch: &Scratch, cwd: PathBuf) -> (Sx, Option<String>) 
                     .collect(),
             ),
             pairs,
+            compile_args,
         ]),
         Some(key),
     )
+}
+
+/// ( ((name kind digest content) ...) ): the REAL `Rust::new` on a scratch sysroot whose lib directory holds the given
+/// entries (kind = file | dir | symfile | symdir | dangling); the digests it recorded for "the compiler itself" are
+/// read off the key pre-image of a fixed request: pre-image(with) = VERSION ++ digests ++ rest, pre-image(without).
+fn leg_sysroot(case: &Sx) -> Sx {
+    use sccache::verif_hooks::compiler::rust::VERIF_CACHE_VERSION;
+    let scratch = Scratch::new(&Sx::L(vec![]));
+    let root = scratch.path().to_path_buf();
+    let lib = root.join("sysroot").join("lib");
+    let store = root.join("store");
+    std::fs::create_dir_all(&lib).unwrap();
+    std::fs::create_dir_all(&store).unwrap();
+    for (i, e) in case.arg(0).list().iter().enumerate() {
+        let name = os(e.arg(0).bytes());
+        let p = lib.join(&name);
+        let target = store.join(format!("t{}", i));
+        match e.arg(1).str().as_str() {
+            "file" => std::fs::write(&p, e.arg(3).bytes()).unwrap(),
+            "dir" => std::fs::create_dir_all(&p).unwrap(),
+            "symfile" => {
+                std::fs::write(&target, e.arg(3).bytes()).unwrap();
+                std::os::unix::fs::symlink(&target, &p).unwrap();
+            }
+            "symdir" => {
+                std::fs::create_dir_all(&target).unwrap();
+                std::os::unix::fs::symlink(&target, &p).unwrap();
+            }
+            _ => std::os::unix::fs::symlink(store.join("missing"), &p).unwrap(),
+        }
+    }
+    let cwd = root.join("w");
+    std::fs::create_dir_all(cwd.join("src")).unwrap();
+    std::fs::write(cwd.join("src/lib.rs"), b"").unwrap();
+    let version = "rustc 1.95.0\nhost: x86_64-unknown-linux-gnu\n".to_string();
+    let rt = tokio::runtime::Builder::new_current_thread().enable_all().build().expect("runtime");
+    let pool = rt.handle().clone();
+    let creator: Creator = Arc::new(Mutex::new(MockCommandCreator { children: vec![] }));
+    creator.lock().unwrap().next_command_spawns(Ok(MockChild::new(
+        exit_status(0),
+        format!("{}\n", root.join("sysroot").display()),
+        "",
+    )));
+    let real = match rt.block_on(Rust::new(creator.clone(), root.join("no-such-rustc"), &[], &version, None, pool.clone())) {
+        Ok(r) => r,
+        Err(_) => return Sx::L(vec![Sx::sym("err")]),
+    };
+    let empty = Rust::verif_new(root.join("no-such-rustc"), "x86_64-unknown-linux-gnu".into(), version.clone(), root.join("sysroot"), vec![]);
+    let argv: Vec<OsString> = ["--crate-name", "c", "src/lib.rs", "--crate-type", "lib", "--emit=link", "--out-dir", "out"]
+        .iter()
+        .map(OsString::from)
+        .collect();
+    let mut traces = vec![];
+    for rust in [&real, &empty] {
+        let hasher = match <Rust as Compiler<Creator>>::parse_arguments(rust, &argv, &cwd, &[]) {
+            CompilerArguments::Ok(h) => h,
+            _ => return Sx::L(vec![Sx::sym("not_ok")]),
+        };
+        let c: Creator = Arc::new(Mutex::new(MockCommandCreator { children: vec![] }));
+        {
+            let mut g = c.lock().unwrap();
+            g.next_command_calls(|args: &[OsString]| {
+                let n = args.len();
+                std::fs::write(&args[n - 1], b"x: src/lib.rs\n")?;
+                Ok(MockChild::new(exit_status(0), "", ""))
+            });
+            g.next_command_spawns(Ok(MockChild::new(exit_status(0), "libc.rlib", "")));
+        }
+        VERIF_DIGEST_TRACE.with(|t| *t.borrow_mut() = Some(vec![]));
+        let r = rt.block_on(hasher.generate_hash_key(&c, cwd.clone(), vec![], false, &pool, false, Arc::new(NoStorage), CacheControl::Default));
+        let trace = VERIF_DIGEST_TRACE.with(|t| t.borrow_mut().take()).unwrap_or_default();
+        if r.is_err() {
+            return Sx::L(vec![Sx::sym("err")]);
+        }
+        traces.push(trace);
+    }
+    let v = VERIF_CACHE_VERSION.len();
+    let (with, without) = (&traces[0], &traces[1]);
+    if with.len() < without.len() || !with.starts_with(&without[..v]) || !with.ends_with(&without[v..]) {
+        return Sx::L(vec![Sx::sym("malformed_preimage")]);
+    }
+    let d = &with[v..with.len() - (without.len() - v)];
+    if d.len() % 64 != 0 {
+        return Sx::L(vec![Sx::sym("malformed_digests")]);
+    }
+    Sx::L(vec![Sx::sym("ok"), Sx::L(d.chunks(64).map(|c| Sx::B(c.to_vec())).collect())])
 }
 
 fn leg_digest(case: &Sx) -> Sx {
@@ -465,6 +561,7 @@ fn main() {
             "key" => leg_key(case),
             "keypair" => leg_keypair(case),
             "cwdpair" => leg_cwdpair(case),
+            "sysroot" => leg_sysroot(case),
             "digest" => leg_digest(case),
             _ => Sx::L(vec![Sx::sym("unknown_leg")]),
         });
